@@ -575,6 +575,17 @@ fn c20_families(thorough: bool) -> Vec<(String, Pats, bool)> {
         ("n65-prefixfree".into(), nfam(65), true),
         ("n1000".into(), (0..1000u32).map(|i| format!("p{}x{}", i, i % 7).into_bytes()).collect(), false),
     ];
+    // 17 / 20 / 32 / 33 patterns whose shortest has ONE byte (Teddy declines
+    // them: the packed searcher has to decline too or fall back consistently)
+    for n in [16usize, 17, 20, 32, 33] {
+        let mut p: Pats = vec![b("q")];
+        p.extend((1..n).map(|i| vec![b'A' + (i % 26) as u8, b'a' + (i / 26) as u8, b'0' + (i % 10) as u8]));
+        v.push((format!("n{}-minlen1", n), p, true));
+    }
+    // more than 8 / 16 patterns whose shortest has >= 5 bytes (packed searcher:
+    // more patterns than buckets, fingerprints capped at 4 bytes)
+    v.push(("nine-words-minlen5".into(), ["alpha", "bravo", "charlie", "delta1", "echo22", "foxtrot", "golf333", "hotel", "india"].iter().map(|w| w.as_bytes().to_vec()).collect(), true));
+    v.push(("seventeen-words-minlen6".into(), (0..17).map(|i| format!("{}word{:02}", (b'a' + i as u8) as char, i).into_bytes()).collect(), true));
     // 1 500 pseudo-random byte patterns: thousands of dense rows of 256 classes
     v.push(("rand-bytes-1500".into(), crate::e3::random_byte_patterns(1500), false));
     // a pattern of 2^16 bytes next to its own 8-byte prefix (16-bit length fields)
